@@ -24,19 +24,24 @@ class Clock(i_lib.Clock):
 
     def start(self):
         self.reset()
+        self._keep_going = True
+        self._event.clear()
         threading.Thread(target=self.run, args=(), daemon=True).start()
 
     @injection.inject(i_lib.Settings)
     def run(self, settings):
-        self._keep_going = True
         sleep_time = float(settings.get_value('sleep_time'))
         while self._keep_going:
             if sleep_time > 0.0:
                 time.sleep(sleep_time)
             self.fire()
+        # Leave the event set so that nobody is left waiting for a tick that
+        # will never come.
+        self._event.set()
 
     def stop(self):
         self._keep_going = False
+        self._event.set()
 
     def reset(self):
         self._cue_time = 0.0
@@ -63,7 +68,8 @@ class Clock(i_lib.Clock):
     def wait_until(self, time_pattern):
         hour, minute = Clock._hour_minute()
         while not time_pattern.match(hour, minute):
-            self.wait()
+            if not self.wait():
+                return
             hour, minute = Clock._hour_minute()
         self.reset()
 
